@@ -15,7 +15,7 @@ def process_level(res, tier):
     base = ["-s", 16, "-N", 16, "-T", 2, "-n", 4, "-G", 0, "--padding", 2, "--InitialDistZoom", 0.8, "-d", 0.001]
     pats = {"single": [1e-3], "two": [1e-3, 1e-3], "gap": [1e-3, 0, 1e-3], "trailing-empty": [1e-3, 0], "three-unequal": [1e-3, 2e-3, 5e-4]}
     if vlib.wide(tier):
-        pats.update({"leading-empty": [0, 1e-3], "four": [1e-3, 1e-3, 0, 1e-3]})
+        pats.update({"leading-empty": [0, 1e-3], "four": [1e-3, 1e-3, 0, 1e-3], "two-equal-behind-another": [2e-3, 1e-3, 1e-3], "equal-pair-in-the-middle": [1e-3, 2e-3, 2e-3, 1e-3]})
     if vlib.deep(tier):
         pats.update({"seven-buckets-six-bunches": [1e-3, 2e-3, 0, 1e-3, 5e-4, 1e-3, 2e-3], "eight-equal": [1e-3] * 8})
     # (RF model, interpolation points, Fokker-Planck variant)
